@@ -238,6 +238,9 @@ func (lc *lenChecker) minLen(x ssa.Value, at *ssa.BasicBlock, depth int) int64 {
 			}
 		}
 	case *ssa.Slice:
+		if k, okG := groupSlice(v, v.Block()); okG {
+			up(k)
+		}
 		if v.High == nil {
 			lo := int64(0)
 			if v.Low != nil {
@@ -350,6 +353,54 @@ func boundedInduction(idx ssa.Value, at *ssa.BasicBlock) (bound ssa.Value, n int
 		n = c
 	}
 	return cmp.Y, n, true
+}
+
+// groupSlice: v is x[K*n : K*n+K] where n is the counter of a loop `for n := 0; n < len(x)/K; n++`
+// (the n-th group of K elements). Such a slice is in range and has length K.
+func groupSlice(v *ssa.Slice, at *ssa.BasicBlock) (int64, bool) {
+	if v.Low == nil || v.High == nil {
+		return 0, false
+	}
+	mulOf := func(x ssa.Value) (ssa.Value, int64, bool) {
+		bo, ok := x.(*ssa.BinOp)
+		if !ok || bo.Op != token.MUL {
+			return nil, 0, false
+		}
+		if k, ok := constInt(bo.X); ok {
+			return bo.Y, k, true
+		}
+		if k, ok := constInt(bo.Y); ok {
+			return bo.X, k, true
+		}
+		return nil, 0, false
+	}
+	n, k, ok := mulOf(v.Low)
+	if !ok || k <= 0 {
+		return 0, false
+	}
+	hb, ok := v.High.(*ssa.BinOp)
+	if !ok || hb.Op != token.ADD {
+		return 0, false
+	}
+	n2, k2, ok2 := mulOf(hb.X)
+	kk, okK := constInt(hb.Y)
+	if !ok2 || !okK || n2 != n || k2 != k || kk != k {
+		return 0, false
+	}
+	bound, _, okB := boundedInduction(n, at)
+	if !okB {
+		return 0, false
+	}
+	q, ok := bound.(*ssa.BinOp)
+	if !ok || q.Op != token.QUO {
+		return 0, false
+	}
+	arg, isLen := lenCallOf(q.X)
+	d, isD := constInt(q.Y)
+	if !isLen || !isD || d != k || !sameSlice(arg, v.X) {
+		return 0, false
+	}
+	return k, true
 }
 
 // nonNegative: v is a counter that starts at a non-negative constant and only grows by
@@ -508,6 +559,10 @@ func (lc *lenChecker) checkIndices(r *Report, fn *ssa.Function) int {
 			}
 			n++
 			key := fmt.Sprintf("%s|slice-expr#%d", shortFn(fn), n)
+			if k, okG := groupSlice(v, b); okG {
+				r.check("L1", key, v.Pos(), true, fmt.Sprintf("x[%d*n : %d*n+%d] with n < len(x)/%d: the group lies within the slice (%d*n+%d <= %d*(len/%d) <= len)", k, k, k, k, k, k, k, k))
+				return
+			}
 			m := lc.minLen(v.X, b, 0)
 			ok := true
 			detail := fmt.Sprintf("known lower bound of len: %d", m)
@@ -764,7 +819,9 @@ func sizeEquationGuard(cond *Term) (bool, string) {
 					return false, "the record count is not converted to int64 before the multiplication (the product can wrap)"
 				}
 				inner := t.Args[0]
-				if inner.Op != "a" {
+				if inner.Op != "a" && inner.Op != "call" && inner.Op != "sel" {
+					// (a field, a decoded value or a table element is "the count itself"; sums and
+					// products are not)
 					return false, "conversion is applied to an expression, not to the count itself (the product can wrap in the narrower type)"
 				}
 				if !strings.Contains(other.Key(), "Size") {
